@@ -55,10 +55,54 @@ def add(run, tier):
     conc = Concrete('calmjs.parse.sourcemap:verify_write_sourcemap_args', call, post, inputs,
                     bound='absolute POSIX paths over 9 directories (nested, sibling, with .. / . / //) x 3 file names')
     verify_functions(run, cs, {}, {conc.qualname: conc}, tier=tier)
+    verify_functions(run, cp.build_write_sourcemap(sm), {}, {}, tier=tier)
     f = run_bounded(run, conc, tier, name='rt.verify_write_sourcemap_args')
     if f:
         run.failed('rt.verify_write_sourcemap_args', 'E4/bounded', f['args'], f, observed=f['required'],
                    required='file / sources relative to the map, sourceMappingURL relative to the output', replayed=True)
+    # inline data URL: what the declared charset decodes to is the map of the lower-level API, whatever error handler the stream has
+    import base64
+    import io
+    import json
+    n2 = 0
+    for enc_, errors_, src_ in [(e_, r_, s_) for e_ in ('utf-8', 'latin-1', 'ascii', None) for r_ in (None, 'strict', 'replace', 'ignore', 'xmlcharrefreplace')
+                                for s_ in ('/x/src/in.js', '/x/src/\u30bd\u30fc\u30b9.js', '/x/src/caf\xe9.js')]:
+        class St(object):
+            def __init__(self):
+                self.buf = io.StringIO()
+                self.name = '/x/build/out.js'
+
+            def write(self, t):
+                return self.buf.write(t)
+
+            def writelines(self, ls):
+                return self.buf.writelines(ls)
+
+            def getvalue(self):
+                return self.buf.getvalue()
+        st = St()
+        if enc_ is not None:
+            st.encoding = enc_
+        if errors_ is not None:
+            st.errors = errors_
+        n2 += 1
+        want = sm.encode_sourcemap(*sm.verify_write_sourcemap_args([[(0, 0, 0, 0)]], [src_], ['n'], st, st)[0])
+        try:
+            sm.write_sourcemap([[(0, 0, 0, 0)]], [src_], ['n'], st, st)
+        except UnicodeEncodeError:
+            continue        # the failure propagates: nothing wrong is written
+        text = st.getvalue()
+        head, _, payload = text.partition(',')
+        charset = head.rsplit('charset=', 1)[-1]
+        try:
+            got = json.loads(base64.b64decode(payload).decode(charset))
+        except Exception as e:
+            got = 'undecodable: %r' % (e,)
+        if got != want:
+            why = 'stream encoding=%r errors=%r source %r: the data URL decodes to %r, the lower-level API yields %r' % (enc_, errors_, src_, got, want)
+            run.failed('rt.inline_map', 'E4/bounded', '%s/%s/%s' % (enc_, errors_, src_), dict(encoding=enc_, errors=errors_, source=src_), observed=why,
+                       required='the inline data URL decodes to the same source map', replayed=True)
+    run.bounded_check('rt.inline_map', 'stream encodings x error handlers x source names (ASCII, Latin-1, Japanese)', n2)
     # normrelpath round trip
     n = 0
     for base, target in itertools.product(_paths(), _paths()):
